@@ -356,10 +356,27 @@ def run(tier, fx=None, ck=None, control=False):
         pushes = [(bi, t) for bi, t in f.calls() if (t[1].get("d") or "").endswith("Vec::<T, A>::push")
                   and t[2] and t[2][0][0] in ("c", "m") and "ImportRequest" in fx.tys(f.locals[t[2][0][1][0]])]
         allok = True
+
+        def keyed_by_path(t):
+            """the membership test compares resolved paths: `contains` on a collection of paths (not of whole requests, whose equality also looks at
+            the specifier and the importer), or `any/all` with a closure that reads `resolved_path`"""
+            u = t[1].get("u") or ""
+            if u.endswith("contains"):
+                a0 = fx.tys(f.locals[t[2][0][1][0]]) if t[2] and t[2][0][0] in ("c", "m") else ""
+                return "ImportRequest" not in a0
+            for a in t[2][1:]:
+                if a[0] in ("c", "m"):
+                    ty = fx.tys(f.locals[a[1][0]])
+                    for g in fx.fns.values():
+                        if g.closure and ("{closure@%s:" % g.span.split("-")[0]) in ty:
+                            reads = any(x[2] == "resolved_path" for _, kind, pl, _sp in M.all_places(g) for x in F.place_fields(pl))
+                            whole = any("ImportRequest" in (t2[1].get("d") or "") and (t2[1].get("u") or "").endswith(("PartialEq::eq", "PartialEq::ne")) for _, t2 in g.calls())
+                            return reads and not whole
+            return False
         for pb, pt in pushes:
             ok = False
             for bi, t in f.calls():
-                if (t[1].get("u") or "").endswith(("Iterator::any", "Iterator::all", "contains")):
+                if (t[1].get("u") or "").endswith(("Iterator::any", "Iterator::all", "contains")) and keyed_by_path(t):
                     te = true_edge(f, bi)
                     if te and (edge_dominates(f, te[1], pb) or edge_dominates(f, te[0], pb)):
                         ok = True
@@ -368,7 +385,7 @@ def run(tier, fx=None, ck=None, control=False):
                     tt = bl["t"]
                     if tt[0] == "switch" and tt[1][0] in ("c", "m"):
                         dd = M.trace_back(f, tt[1][1][0])
-                        if dd and dd[1] == "T" and (dd[2][1].get("u") or "").endswith(("Iterator::any", "Iterator::all")):
+                        if dd and dd[1] == "T" and (dd[2][1].get("u") or "").endswith(("Iterator::any", "Iterator::all")) and keyed_by_path(f.blocks[dd[0]]["t"]):
                             if any(f.dominates(tb, pb) for v, tb in tt[2]) or f.dominates(tt[3], pb):
                                 ok = True
             allok = allok and ok
